@@ -145,3 +145,435 @@ def tlc_bin(cases, task, workers=4, timeout=3000, tag="c11"):
     if len(res) != len(cases):
         raise MachineryError("MIRBin %s: %d results for %d cases" % (task, len(res), len(cases)))
     return res, r
+
+
+# ------------------------------------------------------------------------------------------------ probes of known defects
+
+BIN_HIST = "wc1>rc1>wc2>rc2"
+BIN_PROBES = {
+    # feature: (finding key, matcher over the failures of the probe)
+    "lref": ("bin:lref_labels_detached", lambda fs: all(f.stage == "proj_read" and "?detached" in f.text for f in fs)),
+    "pdata": ("bin:data_p_rejected", lambda fs: fs[0].stage == "read" and "data_type_p_does_not_correspond" in fs[0].sig),
+    "prop": ("bin:property_insns_rejected", lambda fs: fs[0].stage == "read" and "wrong_insn_code" in fs[0].sig),
+    "undef_mem": ("bin:undef_mem_type", lambda fs: fs[0].stage == "read" and "wrong_memory_type" in fs[0].sig),
+    "globals": ("bin:global_var_rejected", lambda fs: fs[0].stage == "read" and "wrong_string_num" in fs[0].sig),
+}
+LD_KEY = "bin:ldouble_padding"
+
+
+def has_ld(M):
+    return any(o["k"] == "ld" for _, _, o in c10.all_ops(M)) or any(it["k"] == "data" and it["t"] == "ld" for _, it in c10.all_items(M))
+
+
+def mask(raw, pads):
+    b = bytearray(raw)
+    for p in pads:
+        b[p:p + 6] = bytes(6)
+    return bytes(b)
+
+
+def run_bin_probes(ck, exe, hists):
+    P = c10.probe_modules()
+    defective = set()
+    h = c10.pick_hist(hists, "api", "canon", BIN_HIST)
+    for feat, (key, match) in BIN_PROBES.items():
+        M = P[feat]
+        case = {"M": M, "NF": c10.text_nf(M)}
+        (fails, _), = c10.replay_cases(exe, [(case, h)], maxpar=1)
+        ck.add("probes")
+        if not fails:
+            continue
+        defective.add(feat)
+        k = key if match(fails) else "probe:%s:%s" % (feat, fails[0].key())
+        ck.violation(k, "probe %s: %s" % (feat, "; ".join(f.text for f in fails[:3])), {"M": M, "NF": case["NF"], "hist": h})
+    # text output of expr items (C10's finding): histories with an output step cannot be used on modules with expr items
+    M = P["expr"]
+    (fails, _), = c10.replay_cases(exe, [({"M": M, "NF": M}, c10.pick_hist(hists, "api", "canon", "o1>o1>o1>o1"))], maxpar=1)
+    if fails:
+        defective.add("expr_text")
+    return defective
+
+
+def ld_padding_probe(ck, exe, hists):
+    """the same values with different padding bytes in the caller's long doubles must give the same byte string"""
+    M = c10.probe_modules()["ld_padding"]
+    case = {"M": M, "NF": M}
+    h = c10.pick_hist(hists, "api", "canon", BIN_HIST)
+    raws = []
+    for pad in (0, 0xAB):
+        (fails, rs), = c10.replay_cases(exe, [(case, h)], maxpar=1, pad=pad)
+        fails = [f for f in fails if f.key() != "bin_identical:differs"]          # settled below, with the padding positions
+        if fails or 0 not in rs["raws"]:
+            ck.violation("probe:ld_padding:" + (fails[0].key() if fails else "nobytes"), "probe ld_padding: %s" % (fails[:2],), {"M": M, "NF": M, "hist": h})
+            return True
+        raws.append(rs["raws"][0])
+    ck.add("probes")
+    if raws[0] == raws[1]:
+        return False
+    res, _ = tlc_bin([{"id": 0, "bytes": list(raws[0])}, {"id": 1, "bytes": list(raws[1])}], "decode", workers=2)
+    pads = res[0]["ldpad"]
+    only_padding = len(raws[0]) == len(raws[1]) and mask(raws[0], pads) == mask(raws[1], pads)
+    ck.violation(LD_KEY if only_padding else "probe:ld_padding:bytes_differ",
+                 "the byte stream depends on the padding bytes of the caller's long doubles: padding 00 gives ...%s, padding ab gives ...%s"
+                 % (raws[0][pads[0] - 2:pads[0] + 6].hex(), raws[1][pads[0] - 2:pads[0] + 6].hex()), {"M": M, "NF": M, "hist": h, "pad": 0xAB})
+    return True
+
+
+# ------------------------------------------------------------------------------------------------ the check
+
+def big_env(tier):
+    """sizes of the big data items: the raw stream is about 1 byte (pattern low) / 1.5 bytes (rand) per u8 element"""
+    B = 1 << 18
+    if tier == "quick":
+        specs = [(B - 60, "low", "u8"), (B - 59, "low", "u8"), (B + 3000, "rep", "u8"), (2 * B + 5000, "low", "u8")]
+    else:
+        specs = [(B - 61, "low", "u8"), (B - 60, "low", "u8"), (B - 59, "low", "u8"), (2 * B - 60, "low", "u8"), (400000, "rand", "u8"),
+                 (3 * B + 777, "rep", "u8"), (70000, "rand", "i64"), (40000, "rand", "ld")]
+    env = {}
+    for i, (n, p, t) in enumerate(specs, 1):
+        env["C11_BIGN%d" % i] = n; env["C11_BIGP%d" % i] = p; env["C11_BIGT%d" % i] = t
+    return env
+
+
+def many_imports(n):
+    return {"mods": [{"name": "m", "items": [{"k": "import", "name": "i%06d" % i} for i in range(n)]}]}
+
+
+def per_module_io(exe, cases):
+    """MIR_write_module_with_func of every module separately, all streams read into ONE fresh context"""
+    bad = []
+    for c in cases:
+        nm = len(c["M"]["mods"])
+        cmds = ["N 0", blob("A", 0, to_script(c["M"]))] + ["W 0 mod%d 0 %d" % (k, k) for k in range(nm)] + ["N 1"] + ["r 1 cb %d" % k for k in range(nm)] + ["P 1", "D 0", "D 1"]
+        outs, died, err = run_cmds(exe, cmds)
+        o = outs[3 + 2 * nm]
+        if died is not None or o is None or o.kind != "J":
+            bad.append((c, "per-module write/read failed: %s" % ([x for x in outs if x is not None and x.kind == "E"][:1] or err[-200:])))
+            continue
+        d = diff(c["M"], json.loads(o.val))
+        if d:
+            bad.append((c, "modules written one by one and read into one context: " + d))
+    return bad
+
+
+def run(tier):
+    ck = Check(PROP, tier, "model_checking")
+    rng = random.Random(vlib.seed())
+    quick = tier == "quick"
+    exe = build_exe("plain")
+    exe_asan = None if quick else build_exe("asan")
+    hists, hr = c10.gen_histories("bin", 4)
+    states, trans = hr.distinct, hr.states
+    cov = collections.Counter()
+    defective = run_bin_probes(ck, exe_asan or exe, hists)
+    ld_defect = ld_padding_probe(ck, exe, hists)
+    strip = defective - {"expr_text"}
+
+    # ---- modules (the generators run side by side)
+    from concurrent.futures import ThreadPoolExecutor
+    nwk = 6 if quick else vlib.NCPU
+    gens = {
+        "mc": lambda: c10.gen_modules("MIRModule_mc.cfg", workers=2),
+        "sim": lambda: c10.gen_modules("MIRModule_sim11.cfg", n=480 if quick else 20000, workers=nwk, seed=vlib.seed() + 11),
+        "prog": lambda: progs.generate(32 if quick else 240, seed=vlib.seed() + 1100, workers=nwk, cfg="MIRProg_exec.cfg"),
+        "big": lambda: c10.gen_modules("MIRModule_big.cfg", workers=2, env=big_env(tier), timeout=1200),
+    }
+    if not quick:
+        gens["mci"] = lambda: c10.gen_modules("MIRModule_mci.cfg", workers=vlib.NCPU, timeout=2400)
+    with ThreadPoolExecutor(max_workers=len(gens) if quick else 2) as ex:
+        futs = {k: ex.submit(f) for k, f in gens.items()}
+        got = {k: f.result() for k, f in futs.items()}
+    groups = []
+    c_mc, r = got["mc"]
+    states += r.distinct; trans += r.states
+    groups.append(("items_exhaustive", c_mc))
+    c_sim, r = got["sim"]
+    states += r.states; trans += r.states
+    groups.append(("simulated", c_sim))
+    if not quick:
+        c_mci, r = got["mci"]
+        states += r.distinct; trans += r.states
+        groups.append(("insns_exhaustive", c_mci[::3]))
+    pc, rr = got["prog"]
+    states += rr.states; trans += rr.states
+    c_prog, skipped = c10.prog_cases(exe, pc)
+    ck.setc("programs_executable", len(c_prog))
+    groups.append(("programs", c_prog))
+    c_big, r = got["big"]
+    states += r.distinct; trans += r.states
+    empty = {"M": {"mods": []}, "NF": {"mods": []}}
+    nimp = [300] if quick else [300, 66000]
+    c_str = [{"M": many_imports(n), "NF": many_imports(n)} for n in nimp]
+    groups.append(("sizes", [empty] + c_big + c_str))
+
+    vlib.log("  generation done at %.0fs" % (c10.time.time() - ck.t0))
+    # ---- (iii) histories
+    counts = collections.Counter()
+    decode_jobs = {}                  # sha of raw -> [raw, expected abstract, case, hist, artefact]
+    nrep = 0
+    by_org = collections.defaultdict(list)
+    for h in hists:
+        by_org[(h["ctxs"][0]["org"], h["ctxs"][0]["num"], any(s["a"] == "output" for s in h["h"]), any(s["a"] == "exec" for s in h["h"]))].append(h)
+
+    def choose(case, org):
+        no_out = "expr_text" in defective and c10.FEATURES["expr"][0](case["M"])
+        cand = [h for (o, n, out, ex), hs in by_org.items() if o == org and n == "canon" and not (no_out and out) and (ex or not case.get("exec")) for h in hs]
+        cand = [h for h in cand if any(s["a"] == "write" for s in h["h"][:2])] or cand
+        return rng.choice(cand)
+    for gname, cases in groups:
+        c10.coverage_of(cases, cov)
+        cases = [c10.strip_features(c, strip, counts) for c in cases]
+        pairs = []
+        for i, c in enumerate(cases):
+            pairs.append((c, choose(c, "api")))
+            if gname != "sizes" and (quick or i % 4 == 0) and c10.text_expressible(c["M"]) and not ("expr_text" in defective and c10.FEATURES["expr"][0](c["M"])):
+                pairs.append((c, choose(c, "pytext")))
+        use = exe_asan if (exe_asan is not None and gname in ("items_exhaustive", "programs", "sizes")) else exe
+        res = c10.replay_cases(use, pairs, maxpar=vlib.NCPU, batch=25 if gname != "sizes" else 1)
+        # the same module built from long doubles with other padding bytes: same bytes expected
+        ldp = [(c, h) for c, h in pairs if h["ctxs"][0]["org"] == "api" and has_ld(c["M"])][: (200 if quick else 3000)]
+        res_ld = c10.replay_cases(exe, ldp, maxpar=vlib.NCPU, pad=0xAB) if ldp else []
+        first_bin = {}
+        nrep += len(pairs) + len(ldp)
+        ck.add("modules_" + gname, len(cases)); ck.add("replays_" + gname, len(pairs) + len(ldp))
+        nbad = 0
+        for idx, ((case, h), (fails, rs)) in enumerate(zip(pairs, res)):
+            for ai, raw in rs["raws"].items():
+                if ai in rs["bins"]:
+                    nf = h["arts"][ai]["nf"]
+                    key = c10.hashlib.sha1(raw).hexdigest() + nf
+                    if key not in decode_jobs:
+                        decode_jobs[key] = [raw, case["M"] if nf == "id" else case["NF"], case, h, ai, gname]
+            if h["ctxs"][0]["org"] == "api" and 0 in rs["raws"]:
+                first_bin[id(case)] = (rs["raws"][0], h)
+            keep = []
+            for f in fails:
+                if f.key() == "bin_identical:differs" and ld_defect and has_ld(case["M"]):
+                    counts["bin_differs_with_long_double"] += 1          # settled below with the padding positions TLC finds
+                    case.setdefault("_ldcheck", []).append((h, rs))
+                    continue
+                keep.append(f)
+            if keep:
+                nbad += 1
+                if nbad <= 40:
+                    (keep, _), = c10.replay_cases(use, [pairs[idx]], maxpar=1)
+                    keep = [f for f in keep if not (f.key() == "bin_identical:differs" and ld_defect and has_ld(case["M"]))]
+                for f in keep[:3]:
+                    ck.violation(f.key(), "%s, history %s: %s" % (gname, c10.hist_name(h), f.text), c10.case_json(case, h))
+        for (case, h), (fails, rs) in zip(ldp, res_ld):
+            a = first_bin.get(id(case))
+            if a is None or 0 not in rs["raws"] or fails:
+                continue
+            if a[0] != rs["raws"][0]:
+                case.setdefault("_ldcheck", []).append((h, {"raws": {0: a[0], 1: rs["raws"][0]}, "bins": {}}))
+                counts["bin_depends_on_caller_padding"] += 1
+        vlib.log("  %s: %d modules, %d histories replayed, %d with mismatches" % (gname, len(cases), len(pairs) + len(ldp), nbad))
+
+    # ---- sets of modules written one by one
+    multi = [c10.strip_features(c, strip) for c in c_sim if len(c["M"]["mods"]) >= 2][: (60 if quick else 1500)]
+    for c, msg in per_module_io(exe, multi):
+        ck.violation("per_module_io", msg, {"M": c["M"], "NF": c["NF"], "hist": hists[0]})
+    ck.setc("module_sets_written_one_by_one", len(multi))
+
+    vlib.log("  histories replayed at %.0fs" % (c10.time.time() - ck.t0))
+    # ---- (i) TLC parses the writer's output
+    budget = 300000 if quick else 14000000
+    jobs = sorted(decode_jobs.values(), key=lambda j: len(j[0]))
+    sel, tot = [], 0
+    for j in jobs:
+        if tot + len(j[0]) > budget:
+            continue
+        sel.append(j); tot += len(j[0])
+    bigj = [j for j in jobs if j[5] == "sizes" and len(j[0]) > 2 * (1 << 18) and j not in sel]
+    if bigj and not quick:
+        sel.append(bigj[0]); tot += len(bigj[0][0])
+    tcases = [{"id": i, "bytes": list(j[0])} for i, j in enumerate(sel)]
+    nw = 8 if quick else vlib.NCPU
+    parts = [tcases[k::nw] for k in range(nw)]
+    parts = [p for p in parts if p]
+    t0 = c10.time.time()
+    with ThreadPoolExecutor(max_workers=len(parts) or 1) as ex:
+        rs = list(ex.map(lambda p: tlc_bin(p, "decode", workers=1, timeout=5000), parts))
+    dres = {}
+    for res_, r_ in rs:
+        dres.update(res_)
+        if r_ is not None:
+            states += r_.distinct; trans += r_.states
+    ck.setc("streams_parsed_by_tlc", len(sel)); ck.setc("bytes_parsed_by_tlc", tot); ck.setc("tlc_parse_wall_s", round(c10.time.time() - t0, 1))
+    ck.setc("streams_not_parsed_over_budget", len(jobs) - len(sel))
+    padpos = {}
+    nobl = 0
+    for i, j in enumerate(sel):
+        o = dres[i]
+        raw, expect, case, h, ai, gname = j
+        padpos[c10.hashlib.sha1(raw).hexdigest()] = o["ldpad"]
+        D = norm_mods(unbin_mods(o["mods"]))
+        d = diff(expect, D)
+        errs = [e for e in o["errs"]]
+        if d and not any(e.startswith("FATAL") for e in errs):
+            ck.violation("decode:module_differs", "%s: MIRBin.Decode of the written bytes differs from the abstract module at %s" % (gname, d), c10.case_json(case, h))
+        pad_errs = [e for e in errs if e.startswith("long double padding")]
+        other = [e for e in errs if not e.startswith("long double padding")]
+        if pad_errs:
+            nobl += 1
+            if not ld_defect or nobl == 1:          # the known defect is reported once (with the probe), every instance is counted
+                ck.violation(LD_KEY if ld_defect else "obligation:ld_padding", "%s: %s (history %s)" % (gname, pad_errs[0], c10.hist_name(h)), c10.case_json(case, h))
+        for e in other[:2]:
+            ck.violation("obligation:" + c10.err_sig(e), "%s: writer obligation / grammar: %s (history %s)" % (gname, e, c10.hist_name(h)), c10.case_json(case, h))
+    # byte strings that differ although the machine says they are equal: only long double padding may be the reason (known defect)
+    for gname, cases in groups:
+        pass
+    for j in jobs:
+        case = j[2]
+        for h, rs_ in case.pop("_ldcheck", []):
+            raws = [rs_["raws"][k] for k in sorted(rs_["raws"])]
+            base = raws[0]
+            pads = padpos.get(c10.hashlib.sha1(base).hexdigest())
+            ok = pads is not None and all(len(x) == len(base) and mask(x, pads) == mask(base, pads) for x in raws[1:])
+            if ok:
+                counts["byte_strings_differing_only_in_ld_padding"] += 1
+                if counts["byte_strings_differing_only_in_ld_padding"] == 1:
+                    ck.violation(LD_KEY, "two byte strings of the same module differ only in long double padding bytes", c10.case_json(case, h))
+            elif pads is not None:
+                ck.violation("bin_identical:differs", "byte strings of equal contexts differ outside long double padding (history %s)" % c10.hist_name(h), c10.case_json(case, h))
+            else:
+                counts["bin_differs_unsettled_over_budget"] += 1
+
+    vlib.log("  %d streams (%d bytes) parsed by TLC at %.0fs" % (len(sel), tot, c10.time.time() - ck.t0))
+    # ---- (ii) token streams generated by TLC (MIRBin.Encode) through the real compressor into the real reader
+    enc_src = [c for c in c_mc[:: (6 if quick else 1)]] + c_sim[: (90 if quick else 4000)] + [c_str[0]]
+    enc_src = [c10.strip_features(c, strip | ({"expr"} if False else set())) for c in enc_src]
+    ecases = []
+    for i, c in enumerate(enc_src):
+        ecases.append({"id": i, "mods": bin_mods(c["M"]), "labbase": [1, 250, 65530, 1][i % 4], "slack": [0, 0, 0, 1, 2, 7][i % 6]})
+    parts = [ecases[k::nw] for k in range(nw)]
+    parts = [p for p in parts if p]
+    with ThreadPoolExecutor(max_workers=len(parts) or 1) as ex:
+        rs = list(ex.map(lambda p: tlc_bin(p, "encode", workers=1, timeout=5000), parts))
+    eres = {}
+    for res_, r_ in rs:
+        eres.update(res_)
+        if r_ is not None:
+            states += r_.distinct; trans += r_.states
+    nenc = 0
+    for grp in vlib.chunks(list(range(len(ecases))), 20):
+        cmds = []
+        for i in grp:
+            o = eres[i]
+            D = norm_mods(unbin_mods(o["mods"]))
+            if diff(enc_src[i]["M"], D) or (ecases[i]["slack"] == 0 and o["errs"]):
+                raise MachineryError("MIRBin: Decode(Encode(m)) # m or canonical encoding breaks an obligation: %s %s" % (diff(enc_src[i]["M"], D), o["errs"][:2]))
+            cmds += ["Z " + bytes(o["bytes"]).hex()]
+        outs, died, err = run_cmds(exe, cmds)
+        cmds2 = []
+        for k, i in enumerate(grp):
+            if outs[k] is None or outs[k].kind != "H":
+                raise MachineryError("reduce_encode failed in the harness")
+            cmds2 += ["N 0", "R 0 %s %s" % (["cb", "file"][i % 2], outs[k].val.hex()), "P 0"]
+        outs2, died, err = run_cmds(exe_asan or exe, cmds2 + ["D 0"])
+        for k, i in enumerate(grp):
+            rd, pj = outs2[3 * k + 1], outs2[3 * k + 2]
+            nenc += 1
+            hh = {"h": [], "ctxs": [{"org": "api", "num": "canon", "nf": "id", "src": 0}], "arts": []}
+            if died is not None and (rd is None or pj is None):
+                ck.violation("encoded_stream:crash", "the reader did not return on a stream generated by MIRBin.Encode (labbase %d slack %d): %s"
+                             % (ecases[i]["labbase"], ecases[i]["slack"], err[-300:]), c10.case_json(enc_src[i], hh))
+                break
+            if rd.kind != "K":
+                ck.violation("encoded_stream:read_" + c10.err_sig(rd.val or ""), "stream generated by MIRBin.Encode (labbase %d slack %d) rejected: %s"
+                             % (ecases[i]["labbase"], ecases[i]["slack"], rd.val), c10.case_json(enc_src[i], hh))
+                continue
+            d = diff(enc_src[i]["M"], json.loads(pj.val))
+            if d:
+                ck.violation("encoded_stream:module_differs", "stream generated by MIRBin.Encode (labbase %d slack %d): projection of what was read differs at %s"
+                             % (ecases[i]["labbase"], ecases[i]["slack"], d), c10.case_json(enc_src[i], hh))
+    vlib.log("  %d streams generated by TLC read by the implementation at %.0fs" % (nenc, c10.time.time() - ck.t0))
+    ck.setc("streams_generated_by_tlc_read_by_impl", nenc)
+    ck.setc("streams_with_nonzero_ld_padding", nobl)
+
+    for k, v in counts.items():
+        ck.setc(k, v)
+    ck.setc("states", states); ck.setc("transitions", trans)
+    ck.setc("traces_validated_against_impl", nrep + nenc + len(sel)); ck.setc("histories", len(hists))
+    ck.setc("defective_features", sorted(defective) + (["ld_padding"] if ld_defect else []))
+    ck.setc("vocabulary", {k: v for k, v in sorted(cov.items())})
+    ck.setc("samples", [c10.hist_name(h) for h in hists[:: max(1, len(hists) // 4)][:4]])
+    ck.setc("rule", "modules of spec/MIRModule.tla (incl. non-finite FP immediates, strings with NULs, two-module contexts, data items over 1, 2 and 3 "
+                    "compression buffers) and MIRProg programs: MIRText histories in mode bin (write/read through callbacks and FILE*, output, execute) "
+                    "are replayed; projections, texts, byte strings and observations must coincide; the written bytes are decompressed with the real "
+                    "decoder and parsed by TLC with MIRBin.Decode (module = abstract module, writer obligations); streams generated with MIRBin.Encode "
+                    "are compressed with the real encoder and read by MIR_read*")
+    ck.assumptions += ["label numbers travel in the stream: equal contexts means equal numbering", "x86-64: long double = 10 value bytes + 6 padding bytes"]
+    return ck.finish()
+
+
+def replay(path):
+    rec = json.load(open(path))
+    d = rec["case"]
+    if not d["hist"]["h"]:
+        # an encoded-stream case: re-encode with TLC and feed the reader
+        exe = build_exe("asan")
+        M = d["M"]
+        bad = 0
+        for lb, sl in ((1, 0), (250, 0), (65530, 0), (1, 1), (1, 7)):
+            res, _ = tlc_bin([{"id": 0, "mods": bin_mods(M), "labbase": lb, "slack": sl}], "encode", workers=1)
+            outs, died, err = run_cmds(exe, ["Z " + bytes(res[0]["bytes"]).hex()])
+            outs2, died, err = run_cmds(exe, ["N 0", "R 0 cb " + outs[0].val.hex(), "P 0"])
+            if died is not None or outs2[1].kind != "K" or diff(M, json.loads(outs2[2].val)):
+                print("replay: still failing (labbase %d slack %d): %s" % (lb, sl, outs2[1]))
+                bad += 1
+        if bad:
+            print("VIOLATION property=%s replay=%s" % (PROP, path))
+        else:
+            print("replay: passes")
+        return 1 if bad else 0
+    if d.get("pad"):
+        ck_fail = ld_padding_probe(_Quiet(), build_exe("plain"), c10.gen_histories("bin", 4)[0])
+        print("replay: %s" % ("still failing" if ck_fail else "passes"))
+        if ck_fail and not vlib.Findings().is_known(PROP, rec.get("key", "")):
+            print("VIOLATION property=%s replay=%s" % (PROP, path))
+            return 1
+        return 0
+    return c10.replay_file(PROP, path, [build_exe("plain"), build_exe("asan")])
+
+
+class _Quiet:
+    def add(self, *a):
+        pass
+
+    def violation(self, key, text, case):
+        print("replay: " + text[:300])
+
+
+def selftest():
+    """binding demonstration: TLC's decoder accepts the writer's bytes and objects to a widened tag, a swapped string
+    table entry, non-zero long double padding and a changed immediate; the replay objects to a corrupted expectation"""
+    exe = build_exe("plain")
+    hists, _ = c10.gen_histories("bin", 4)
+    h = c10.pick_hist(hists, "api", "canon", BIN_HIST)
+    I, R, ins, lab, mem = c10._I, c10._R, c10._ins, c10._lab, c10._mem
+    f = c10._func("f", [ins("mov", R("x"), I(300)), lab(1), ins("ldmov", mem("ld", 16, "x"), {"k": "ld", "v": "3fffc000000000000000"}),
+                        ins("bt", {"k": "lab", "n": 1}, R("x")), ins("ret", R("x"))])
+    M = c10._mod([{"k": "import", "name": "ext"}, {"k": "data", "name": "d1", "t": "i16", "nel": 2, "hex": "ffff0100", "via": "data"}, f])
+    case = {"M": M, "NF": M}
+    (f1, rs), = c10.replay_cases(exe, [(case, h)], maxpar=1)
+    raw = rs["raws"][0]
+    ok1 = not f1
+    i300 = raw.find(bytes([10, 0x2c, 0x01]))                   # I2 300
+    wide = raw[:i300] + bytes([11, 0x2c, 0x01, 0]) + raw[i300 + 3:]
+    ild = raw.find(bytes([19]) + bytes.fromhex("00000000000000c0ff3f"))
+    padded = raw[:ild + 11] + b"\x01" + raw[ild + 12:]
+    changed = raw[:i300] + bytes([10, 0x2d, 0x01]) + raw[i300 + 3:]
+    res, _ = tlc_bin([{"id": 0, "bytes": list(raw)}, {"id": 1, "bytes": list(wide)}, {"id": 2, "bytes": list(padded)}, {"id": 3, "bytes": list(changed)}], "decode", workers=2)
+    dec = lambda i: diff(M, norm_mods(unbin_mods(res[i]["mods"])))
+    ok2 = dec(0) is None and not res[0]["errs"]
+    ok3 = dec(1) is None and any("longer than its value needs" in e for e in res[1]["errs"])
+    ok4 = any("padding" in e for e in res[2]["errs"])
+    ok5 = dec(3) is not None
+    bad = c10.copy.deepcopy(case)
+    bad["M"]["mods"][0]["items"][1]["hex"] = "feff0100"
+    (f2, _), = c10.replay_cases(exe, [({"M": M, "NF": bad["M"]}, c10.pick_hist(hists, "pytext", "canon", BIN_HIST))], maxpar=1)
+    ok6 = any(x.stage.startswith("proj_") for x in f2)
+    print("selftest C11: real bytes accepted by the replay=%s and by MIRBin.Decode=%s; widened tag objected=%s; padding objected=%s; changed immediate detected=%s; "
+          "corrupted expectation rejected=%s" % (ok1, ok2, ok3, ok4, ok5, ok6))
+    return 0 if all((ok1, ok2, ok3, ok4, ok5, ok6)) else 1
